@@ -24,7 +24,7 @@ func init() {
 		kinds: []string{"revoke", "revoke", "revoke", "none", "decoys", "permute", "policy"}})
 	// C06: valid chains surrounded by decoys, permutations, duplicates, link-only proofs
 	gens["C06"] = worldGen("C06", 2000, 40000, genOpts{maxDepth: 6, sessions: true, sessionPct: 25, caveats: true, caveatPct: 20,
-		kinds: []string{"none", "permute", "decoys", "dup", "missing", "nbf-ok", "decoys", "permute", "expired", "wrongkey", "parsefail"}})
+		kinds: []string{"none", "permute", "decoys", "dup", "missing", "nbf-ok", "deadend", "deadend", "permute", "expired", "wrongkey", "parsefail"}})
 }
 
 func without(l []string, x string) []string {
